@@ -124,6 +124,11 @@ def enumerate_muts(tree):
                         out.append(('swap', path, field, i))
                 for i in range(n):
                     out.append(('dup', path, field, i))
+            elif typ == 'expr' and field in ('decorator_list', 'bases'):  # list fields reconcile has no element-wise handling for
+                for i in range(n + 1):
+                    out.append(('ins-expr', path, field, i))
+                for i in range(n):
+                    out.append(('del', path, field, i))
             elif typ == 'expr' and node.__class__.__name__ in ('List', 'Tuple', 'Set', 'Call') and field in ('elts', 'args') \
                     and isinstance(getattr(node, 'ctx', ast.Load()), ast.Load):
                 if any(isinstance(e, ast.Starred) for e in lst):
@@ -309,6 +314,43 @@ def _run_history(fst, pi, hist, res, second, tag):
         if seg not in outsrc:
             res.fail(cid, 'untouched-statement-text-changed',
                      f'src={src!r}\nresult={outsrc!r}\nstatement body[{i}] lines={seg!r}', params, rep)
+            return None
+    # the same for statements at any depth: a statement none of whose own nodes was touched (no mutation at or below it, none of
+    # the lists it is an element of changed) keeps its lines even when the statement that contains it was edited elsewhere
+    def _hit(t, P):
+        """does the touched path t concern the statement at path P (t at / below P, or a list on the way to P changed)?"""
+        for k, (f, i) in enumerate(t):
+            if k >= len(P):
+                return True  # t goes below P
+            if f != P[k][0]:
+                return False
+            if i == '*':
+                return True  # a list on the way to P (or P's own list) changed length / order
+            if i != P[k][1]:
+                return False
+        return True  # t is a prefix of (or equal to) P: a container of P was replaced as a whole
+    for P, st in O.iter_nodes(marked):
+        if not isinstance(st, ast.stmt) or len(P) < 2:
+            continue
+        if any(_hit(t, P) for t in touched):
+            continue
+        try:
+            w = O.get_path(want, P)
+        except Exception:  # noqa: BLE001
+            continue
+        if O.dump(w) != O.dump(st):
+            continue
+        sibs = getattr(O.get_path(marked, P[:-1]), P[-1][0])
+        a = st.decorator_list[0].lineno if getattr(st, 'decorator_list', None) else st.lineno
+        if not isinstance(sibs, list) or any(o is not st and (o.lineno <= st.end_lineno and o.end_lineno >= a) for o in sibs):
+            continue  # shares lines with a sibling
+        if lines[a - 1][:O.byte2char(lines[a - 1], st.col_offset if not getattr(st, 'decorator_list', None) else st.decorator_list[0].col_offset - 1)].strip():
+            continue  # something stands in front of it on its first line (the header of its block: 'if a: b', 'case 1: pass')
+        seg = '\n'.join(lines[a - 1:st.end_lineno])
+        if seg not in outsrc:
+            res.fail(cid, 'untouched-nested-statement-text-changed',
+                     f'src={src!r}\nresult={outsrc!r}\nstatement {O.path_str(P)} lines={seg!r}',
+                     dict(params, nested_untouched=True, list_fields=','.join(sorted({m[2] for m in hist if m[0] in ('ins-expr', 'del') and len(m) > 2 and m[2] in ('decorator_list', 'bases')}))), rep)
             return None
     if wd != O.dump(marked):
         res.nontriv(pi, wd)
